@@ -137,7 +137,8 @@ CHECKS = {
         "explicit harmonic weights, groups of 1..3 real images with distinctive weight columns matched in shuffled order "
         "against a direct iter_linear_fit call.",
    note="astropy Table concatenation and numpy fancy indexing are exercised by the correspondence, not modelled beyond "
-        "list concatenation and indexing.",
+        "list concatenation and indexing (the masked outer join of expand_catalog is modelled in Model/GroupCat). Open "
+        "finding F28 (one-sided weight columns after an expansion of the reference catalog) is reported as KNOWN-FINDING.",
    technique="Lean 4 proof (frame argument on the masked data; list indexing lemmas) + metamorphic oracle on the implementation",
    ref="5/C09"),
  'C17': dict(
